@@ -433,10 +433,16 @@ impl AnyTrk {
     /// one call for one scene (batch trackers: a batch holding that scene, all results retrieved)
     pub fn predict(&mut self, scene: u64, dets: &[Det]) -> Vec<Rec> {
         match self {
+            // scene 0 goes through the scene-less convenience entry points (they must mean scene 0)
+            AnyTrk::Sort(t) if scene == 0 => t.predict(&sort_dets(dets)).iter().map(Rec::from).collect(),
             AnyTrk::Sort(t) => t.predict_with_scene(scene, &sort_dets(dets)).iter().map(Rec::from).collect(),
             AnyTrk::VSort(t) => {
                 let obs: Vec<VisualSortObservation> = dets.iter().map(|d| VisualSortObservation::new(d.feature.as_deref(), d.quality, d.bbox.clone(), d.custom_id)).collect();
-                t.predict_with_scene(scene, &obs).iter().map(Rec::from).collect()
+                if scene == 0 {
+                    t.predict(&obs).iter().map(Rec::from).collect()
+                } else {
+                    t.predict_with_scene(scene, &obs).iter().map(Rec::from).collect()
+                }
             }
             _ => {
                 let mut r = self.predict_batch(&[(scene, dets.to_vec())]);
@@ -477,6 +483,14 @@ impl AnyTrk {
     }
 
     pub fn skip(&mut self, scene: u64, n: usize) {
+        if scene == 0 {
+            return match self {
+                AnyTrk::Sort(t) => t.skip_epochs(n),
+                AnyTrk::BSort(t) => t.skip_epochs(n),
+                AnyTrk::VSort(t) => t.skip_epochs(n),
+                AnyTrk::BVSort(t) => t.skip_epochs(n),
+            };
+        }
         match self {
             AnyTrk::Sort(t) => t.skip_epochs_for_scene(scene, n),
             AnyTrk::BSort(t) => t.skip_epochs_for_scene(scene, n),
@@ -498,6 +512,10 @@ impl AnyTrk {
 
     pub fn idle(&mut self, scene: u64) -> Vec<Rec> {
         let mut v: Vec<Rec> = match self {
+            AnyTrk::Sort(t) if scene == 0 => t.idle_tracks().iter().map(Rec::from).collect(),
+            AnyTrk::BSort(t) if scene == 0 => t.idle_tracks().iter().map(Rec::from).collect(),
+            AnyTrk::VSort(t) if scene == 0 => t.idle_tracks().iter().map(Rec::from).collect(),
+            AnyTrk::BVSort(t) if scene == 0 => t.idle_tracks().iter().map(Rec::from).collect(),
             AnyTrk::Sort(t) => t.idle_tracks_with_scene(scene).iter().map(Rec::from).collect(),
             AnyTrk::BSort(t) => t.idle_tracks_with_scene(scene).iter().map(Rec::from).collect(),
             AnyTrk::VSort(t) => t.idle_tracks_with_scene(scene).iter().map(Rec::from).collect(),
@@ -544,6 +562,14 @@ impl AnyTrk {
     }
 
     pub fn epoch(&self, scene: u64) -> usize {
+        if scene == 0 {
+            return match self {
+                AnyTrk::Sort(t) => t.current_epoch(),
+                AnyTrk::BSort(t) => t.current_epoch(),
+                AnyTrk::VSort(t) => t.current_epoch(),
+                AnyTrk::BVSort(t) => t.current_epoch(),
+            };
+        }
         match self {
             AnyTrk::Sort(t) => t.current_epoch_with_scene(scene),
             AnyTrk::BSort(t) => t.current_epoch_with_scene(scene),
